@@ -39,6 +39,13 @@ structure Obs where
   idle : Status := (0, "")            -- the final / stopped status most recently declared
   callsInCycle : Nat := 0
   cleanupsInCycle : Nat := 0
+  mustEnter : Option Sid := none      -- the previous event of the cycle thread handed over a state to continue with (a state or
+                                      -- cleanup function returned it, or a start was taken): it is to be entered next
+  mayFinish : Bool := false           -- the previous event of the cycle thread ends the run: an interruption, or a function
+                                      -- returned something that is not a state to continue with (and not `Retry` of a state function)
+  declared : List Sid := []           -- state functions whose attached status counts for the current engagement: the start state
+                                      -- of the most recent start request, the state active when it was issued, the states entered since
+  override : Option Status := none    -- `status=` of the most recent start request
 deriving Repr
 
 def isStart : Req → Bool
@@ -58,6 +65,22 @@ def isErrorRet : Ret → Bool
   | .raise => true
   | _ => false
 
+/-- the state a function hands over to continue with -/
+def nextOf : Ret → Option Sid
+  | .next s => some s
+  | _ => none
+
+/-- the state a request asks to be entered -/
+def startState : Option Req → Option Sid
+  | some (.start s _ _ _) => some s
+  | _ => none
+
+/-- does what a function returned end the run?  (`inState`: it was a state function — its `Retry` does not) -/
+def endsRun (inState : Bool) : Ret → Bool
+  | .next _ => false
+  | .retry => !inState
+  | _ => true
+
 /-- events of the thread that runs `cycle` (the others — requests, their bookkeeping, status reports — may come from
     any thread and fall between two of these) -/
 def isCycleEv : Ev → Bool
@@ -74,37 +97,45 @@ def Obs.step (o : Obs) : Ev → Obs
   | .reqStop => { o with stopOwed := if o.cur.isSome then o.stopOwed + 1 else o.stopOwed }
   | .reqDone true => { o with startCredit := o.startCredit - 1 }
   | .reqDone false => { o with stopCredit := o.stopCredit - 1 }
-  | .take => { o with pending := none, taken := startOf o.pending, lastEnter := none, lastInterrupt := false }
+  | .take => { o with pending := none, taken := startOf o.pending, lastEnter := none, lastInterrupt := false,
+                      mustEnter := startState o.pending, mayFinish := false }
   | .post r =>
     { o with pending := some r, lastPost := some r, postedInCycle := true,
              requesting := if isStart r then o.requesting - 1 else o.requesting,
              startCredit := if isStart r && decide (0 < o.requesting) then o.startCredit + 1 else o.startCredit,
              stopOwed := if isStart r then o.stopOwed else o.stopOwed - 1,
              stopCredit := if !isStart r && decide (0 < o.stopOwed) then o.stopCredit + 1 else o.stopCredit,
-             idle := match r with | .stop st => st | _ => o.idle }
+             idle := match r with | .stop st => st | _ => o.idle,
+             declared := match r with | .start s _ _ _ => s :: o.cur.toList | .stop _ => o.declared,
+             override := match r with | .start _ _ _ ovr => ovr | .stop _ => o.override }
   | .cycleBegin =>
-    { o with postedInCycle := false, callsInCycle := 0, cleanupsInCycle := 0, lastEnter := none, lastInterrupt := false }
-  | .cycleEnd _ _ => { o with lastEnter := none, lastInterrupt := false }
+    { o with postedInCycle := false, callsInCycle := 0, cleanupsInCycle := 0, lastEnter := none, lastInterrupt := false,
+             mustEnter := none, mayFinish := false }
+  | .cycleEnd _ _ => { o with lastEnter := none, lastInterrupt := false, mustEnter := none, mayFinish := false }
   | .call _ _ =>
-    { o with fresh := false, inState := true, callsInCycle := o.callsInCycle + 1, lastEnter := none, lastInterrupt := false }
+    { o with fresh := false, inState := true, callsInCycle := o.callsInCycle + 1, lastEnter := none, lastInterrupt := false,
+             mustEnter := none, mayFinish := false }
   | .cleanup _ =>
     { o with runCleanup := none, mustCleanup := none, inState := false, cleanupsInCycle := o.cleanupsInCycle + 1,
-             lastEnter := none, lastInterrupt := false }
+             lastEnter := none, lastInterrupt := false, mustEnter := none, mayFinish := false }
   | .ret r fin =>
     { o with inState := false, mustInterrupt := o.inState && isErrorRet r,
              runCleanup := match fin with | some _ => none | none => o.runCleanup,
              idle := match fin with | some st => st | none => o.idle,
-             lastEnter := none, lastInterrupt := false }
+             lastEnter := none, lastInterrupt := false, mustEnter := nextOf r, mayFinish := endsRun o.inState r }
   | .interrupt _ =>
-    { o with mustInterrupt := false, mustCleanup := o.runCleanup, interrupted := true, lastEnter := none, lastInterrupt := true }
+    { o with mustInterrupt := false, mustCleanup := o.runCleanup, interrupted := true, lastEnter := none, lastInterrupt := true,
+             mustEnter := none, mayFinish := true }
   | .enter ns =>
     { o with cur := ns, fresh := true, stopOwed := match ns with | none => 0 | some _ => o.stopOwed,
              interrupted := match ns with | none => false | some _ => o.interrupted,
-             lastEnter := some ns, lastInterrupt := false }
+             lastEnter := some ns, lastInterrupt := false, mustEnter := none, mayFinish := false,
+             declared := match ns with | some s => s :: o.declared | none => o.declared }
   | .pickup _ cl snap =>
-    { o with runCleanup := cl, attrs := snap, taken := none, lastEnter := none, lastInterrupt := false }
+    { o with runCleanup := cl, attrs := snap, taken := none, lastEnter := none, lastInterrupt := false,
+             mustEnter := none, mayFinish := false }
   | .status _ => o
-  | .raised => { o with lastEnter := none, lastInterrupt := false }
+  | .raised => { o with lastEnter := none, lastInterrupt := false, mustEnter := none, mayFinish := false }
 
 /-- the observer starts knowing the idle status the module was created with -/
 def Obs.init (idle : Status) : Obs := { idle := idle }
@@ -155,6 +186,24 @@ def okCleanupOnce (o : Obs) (e : Ev) : Bool :=
 def okCleanupNotInterrupted (o : Obs) : Ev → Bool
   | .interrupt k => !o.interrupted || k == .error
   | .take => o.cur.isNone
+  | _ => true
+
+/-- … *never interrupted*, continued: a sequence of states is executed as its functions direct.  When a state function or
+    a cleanup function hands over a state to continue with (on every path: the normal chaining of states, the cleanup
+    function called after stop, restart, an exception, a non-callable return value or too many chained states) — or a
+    start was taken —, entering that state is the next thing the cycle thread does (`okFollowUp`) … -/
+def okFollowUp (o : Obs) (e : Ev) : Bool :=
+  !isCycleEv e ||
+    (match o.mustEnter with
+     | some s => e == .enter (some s)
+     | none => true)
+
+/-- … and the machine changes its state only so: a state is entered only when it was handed over just now, and the
+    machine becomes inactive only right after an interruption or after a function returned something that ends the
+    run (`Finish`, a non-callable, an exception; for a cleanup function also `Retry`). -/
+def okEnterCalledFor (o : Obs) : Ev → Bool
+  | .enter (some s) => decide (o.mustEnter = some s)
+  | .enter none => o.mayFinish
   | _ => true
 
 /-- *after stop the machine becomes inactive … as soon as a cleanup sequence already in progress has
@@ -214,10 +263,27 @@ def okPickedUp (o : Obs) : Ev → Bool
 /-- the module is "engaged": a state function is active, or a start is waiting to be taken or being entered -/
 def Obs.engaged (o : Obs) : Bool := o.cur.isSome || isStartReq o.pending || o.taken.isSome
 
+/-- is a declared status (attached with `@status_code`, or given as `status=`) one that is not busy? -/
+def nonBusy (r : Rules) : Option Status → Bool
+  | some st => !isBusy r st
+  | none => false
+
+/-- the author of the module declared a status that is not busy for the current engagement: as the `status=` override of
+    the start request in force, or attached to its start state, to the state that was active when it was issued, or to a
+    state entered since.  (A state function without attached status declares nothing: it never makes an engagement lax.) -/
+def Obs.lax (r : Rules) (o : Obs) : Bool :=
+  nonBusy r o.override || o.declared.any (fun s => nonBusy r (r.statusOf s))
+
 /-- *a module built on it reports a busy status from the start request until the machine has finished and
     its final or stopped status afterwards* (while a start request is being issued by another thread — begun,
-    task not yet posted — either is accepted) -/
+    task not yet posted — either is accepted).  Where the author declared a status that is not busy (`Obs.lax`) the
+    module reports what was declared; whatever happened in earlier engagements of the same module does not count. -/
 def okBusy (r : Rules) (o : Obs) : Ev → Bool
+  | .status st => if 0 < o.requesting then true else if o.engaged && !o.lax r then isBusy r st else true
+  | _ => true
+
+/-- the same without the exception: for modules whose declared status codes are all busy codes -/
+def okBusyStrict (r : Rules) (o : Obs) : Ev → Bool
   | .status st => if 0 < o.requesting then true else if o.engaged then isBusy r st else true
   | _ => true
 
@@ -225,22 +291,31 @@ def okFinal (o : Obs) : Ev → Bool
   | .status st => if 0 < o.requesting then true else if o.engaged then true else decide (st = o.idle)
   | _ => true
 
+/-- the busy predicate of the module itself (`Drivable.isBusy`), as a table `code ↦ answer` recorded from the
+    implementation: *busy* means `BUSY ≤ code < ERROR` (the codes `3xx` of the protocol, sub-states included).  The codes at
+    which the recorded predicate differs. -/
+def busyPredicateBad (r : Rules) (table : List (Nat × Bool)) : List Nat :=
+  (table.filter fun p => p.2 != (decide (r.busy ≤ p.1) && decide (p.1 < r.error))).map (·.1)
+
 /-! ## the clauses as properties of a history -/
 
 def CycleBounded (idle : Status) (maxloops : Nat) := Always idle (okBound maxloops)
 def NeverRaises (idle : Status) := Always idle okNoRaise
 def InitFlagExact (idle : Status) := Always idle okInit
 def CleanupExactlyOnce (idle : Status) := Always idle okCleanupOnce
-def CleanupNotInterrupted (idle : Status) := Always idle okCleanupNotInterrupted
+def CleanupNotInterrupted (idle : Status) (tr : List Ev) :=
+  Always idle okCleanupNotInterrupted tr ∧ Always idle okFollowUp tr ∧ Always idle okEnterCalledFor tr
 def StopMakesInactive (idle : Status) (tr : List Ev) := Always idle okStopInactive tr ∧ Always idle okStopPosted tr
 def LastStartWins (idle : Status) (tr : List Ev) :=
   Always idle okLastStart tr ∧ Always idle okPickedUp tr ∧ Always idle okStartPosted tr
 def BusyUntilFinished (idle : Status) (r : Rules) (tr : List Ev) := Always idle (okBusy r) tr ∧ Always idle okFinal tr
+def BusyUntilFinishedStrict (idle : Status) (r : Rules) (tr : List Ev) :=
+  Always idle (okBusyStrict r) tr ∧ Always idle okFinal tr
 
 /-! ## monitors -/
 
 inductive Clause where
-  | bound | noRaise | initFlag | cleanupOnce | cleanupNotInterrupted | stopInactive | stopPosted | lastStart | pickedUp
+  | bound | noRaise | initFlag | cleanupOnce | cleanupNotInterrupted | followUp | enterCalledFor | stopInactive | stopPosted | lastStart | pickedUp
   | startPosted | busy | final
 deriving DecidableEq, Repr
 
@@ -250,6 +325,8 @@ def Clause.name : Clause → String
   | .initFlag => "init_flag_exact"
   | .cleanupOnce => "cleanup_exactly_once"
   | .cleanupNotInterrupted => "cleanup_not_interrupted"
+  | .followUp => "cleanup_not_interrupted:returned-state-not-entered"
+  | .enterCalledFor => "cleanup_not_interrupted:transition-not-called-for"
   | .stopInactive => "stop_makes_inactive"
   | .stopPosted => "stop_makes_inactive:stop-request-not-posted"
   | .startPosted => "last_start_wins:start-request-not-posted"
@@ -272,6 +349,8 @@ def violated (maxloops : Nat) (hasStates : Bool) (r : Rules) (o : Obs) (e : Ev) 
   (if okInit o e then [] else [.initFlag]) ++
   (if okCleanupOnce o e then [] else [.cleanupOnce]) ++
   (if okCleanupNotInterrupted o e then [] else [.cleanupNotInterrupted]) ++
+  (if okFollowUp o e then [] else [.followUp]) ++
+  (if okEnterCalledFor o e then [] else [.enterCalledFor]) ++
   (if okStopInactive o e then [] else [.stopInactive]) ++
   (if okStopPosted o e then [] else [.stopPosted]) ++
   (if okStartPosted o e then [] else [.startPosted]) ++
